@@ -23,9 +23,12 @@ Invariant: `FInv` (ids unique, parent list functional / total / live, hierarchy
 operations, hence on every reachable state.
 -/
 import Proofs.NoUbCratesV1
+import Properties.C07V1
+import EngineModel.Api.GuardedCratesV1
 
 namespace EngineModel.Properties.C15CratesV1
 open EngineModel EngineModel.Api.CratesV1 EngineModel.Api.CratesV1.C15 EngineModel.Pure.Detect
+open EngineModel.Api.GuardedCratesV1
 
 /-- No operation, with any arguments, has undefined behaviour (here: runs out of recursion depth)
 on a state whose crate tables describe a forest. -/
@@ -45,16 +48,36 @@ theorem v1c_C15_reachable_no_ub (s : Schema) (ops : List Op) :
     ∀ r ∈ outcomes s Db.empty ops, ∀ u, r ≠ .ub u :=
   fun r hr u => outcomes_defined s ops Db.empty (cinv_empty s) r hr u
 
-/-- The handle-validity and by-id queries never have undefined behaviour, on ANY state and for any id
-(the other queries of the model are total functions). -/
+/-- **Queries.**  The inventory of tools/tr_c15guards.py finds ONE dereference / index / division site in
+the 1.x crate and database query paths: `*name` in `crate::name` (engine_crate_impl.cpp:281).
+`crateNameSrc` is that function with the dereference explicit behind the guard regenerated from the source:
+it is the model's `crateName`, hence never `ub`; without the guard it is `ub empty_optional` on a removed
+crate.  The other queries (is_valid, parent, crate_by_id, track is_valid — single SELECTs with callbacks)
+have no such site; their models are `ok` / `throw` only, which the last conjuncts record. -/
 theorem v1c_C15_queries_no_ub (db : Db) (c : Id) (u : Ub) :
-    crateIsValid db c ≠ .ub u ∧ crateName db c ≠ .ub u ∧ crateParent db c ≠ .ub u ∧
-    dbCrateById db c ≠ .ub u ∧ trackIsValid db c ≠ .ub u := by
-  refine ⟨?_, ?_, ?_, ?_, ?_⟩
+    crateNameSrc db c = crateName db c ∧ crateNameSrc db c ≠ .ub u ∧
+    (c ∉ ids db → crateNameG (fun _ => false) db c = .ub .empty_optional) ∧
+    crateIsValid db c ≠ .ub u ∧ crateParent db c ≠ .ub u ∧ dbCrateById db c ≠ .ub u ∧ trackIsValid db c ≠ .ub u := by
+  have heq : crateNameSrc db c = crateName db c := by
+    unfold crateNameSrc crateNameG crateName Gen.C15Guards.v1_crate_name_none
+    cases h : (db.crate.filter (·.id == c)).map (·.title) with
+    | nil => rfl
+    | cons a l =>
+      cases l with
+      | nil => rfl
+      | cons b l' => rfl
+  refine ⟨heq, ?_, ?_, ?_, ?_, ?_, ?_⟩
+  · rw [heq]; unfold crateName; split <;> exact fun h => by cases h
+  · intro hc
+    unfold crateNameG
+    have : (db.crate.filter (·.id == c)).map (·.title) = [] := by
+      rw [List.map_eq_nil_iff, List.filter_eq_nil_iff]
+      intro r hr he
+      exact hc (List.mem_map.mpr ⟨r, hr, by simpa using he⟩)
+    rw [this]; rfl
   · unfold crateIsValid; simp only; split
     · exact fun h => by cases h
     · split <;> exact fun h => by cases h
-  · unfold crateName; split <;> exact fun h => by cases h
   · unfold crateParent; split <;> exact fun h => by cases h
   · unfold dbCrateById crateIsValid; simp only; split
     · exact fun h => by cases h
@@ -63,10 +86,34 @@ theorem v1c_C15_queries_no_ub (db : Db) (c : Id) (u : Ub) :
     · exact fun h => by cases h
     · split <;> exact fun h => by cases h
 
-/-- **Stale crate handle**: after `remove_crate(c)` — on any state — `c.is_valid()` is false. -/
-theorem v1c_C15_stale_crate_invalid (s : Schema) (db : Db) (c : Id) :
+/-- **Stale crate handle, one step**: right after `remove_crate(c)` — on any state — `c.is_valid()` is false. -/
+theorem v1c_C15_stale_crate_one_step (s : Schema) (db : Db) (c : Id) :
     crateIsValid (step s db (.removeCrate c)).1 c = .ok false :=
   crateIsValid_dead (removed_not_live s db c)
+
+/-- FULL STATEMENT (property text: "handles to removed crates report is_valid() == false", along every
+later history) — FALSE of the 1.x code: `Crate.id` is allocated as MAX(id)+1 / rowid, so the id of a removed
+crate is handed out again (`v1c_C15_stale_crate_counterexample`; recorded finding of C15).
+PROVED (the honest form): after `remove_crate(c)` on a state reachable through the API the handle stays
+invalid along every continuation in which no creation reports the id `c`
+(`reissues … = false`, the executable restriction of the crates-1.x package; its theorem
+`C07_removed_never_returned_partial` does the induction). -/
+theorem v1c_C15_stale_crate_partial (s : Schema) (ops ops' : List Op) (c : Id)
+    (hno : reissues s (run s Db.empty (ops ++ [.removeCrate c])) ops' c = false) :
+    crateIsValid (run s Db.empty ((ops ++ [.removeCrate c]) ++ ops')) c = .ok false := by
+  have hy : crateIsValid (run s Db.empty (ops ++ [Op.removeCrate c])) c = .ok false := by
+    rw [run_append]
+    exact v1c_C15_stale_crate_one_step s _ c
+  exact C07V1.C07_removed_never_returned_partial s (ops ++ [Op.removeCrate c]) ops' c hy hno
+
+/-- The full statement is false on both allocation rules: create `a` (id 1), remove it — the handle is
+invalid — create `b`: it receives id 1 and the stale handle is valid again. -/
+theorem v1c_C15_stale_crate_counterexample :
+    (crateIsValid (run .schema_1_6_0 Db.empty [.createRoot [97], .removeCrate 1]) 1 = .ok false ∧
+     crateIsValid (run .schema_1_6_0 Db.empty ([.createRoot [97], .removeCrate 1] ++ [.createRoot [98]])) 1 = .ok true) ∧
+    (crateIsValid (run .schema_1_18_0_os Db.empty [.createRoot [97], .removeCrate 1]) 1 = .ok false ∧
+     crateIsValid (run .schema_1_18_0_os Db.empty ([.createRoot [97], .removeCrate 1] ++ [.createRoot [98]])) 1 = .ok true) := by
+  decide +kernel
 
 /-- Operations through a handle to a crate that does not exist (removed, or an id that never
 existed) throw; nothing is written. -/
@@ -106,9 +153,10 @@ theorem v1c_C15_descendant_parent_refused (s : Schema) (db : Db) (h : FInv db) (
   have hne : q ≠ c := fun e => h.chIrrefl c (e ▸ hd)
   exact setParent_cycle s h.idsNodup hne hl.1 hl.2 hd
 
-/-- **Stale track handle**: after `remove_track(t)` on a reachable state `t.is_valid()` is false
-(from 1.17.0 on this needs the AUTOINCREMENT bound: the placeholder row gets a fresh id). -/
-theorem v1c_C15_stale_track_invalid (s : Schema) (db : Db) (h : CInv s db) (t : Id) :
+/-- **Stale track handle, one step**: right after `remove_track(t)` on a reachable state `t.is_valid()` is
+false (from 1.17.0 on this needs the AUTOINCREMENT bound: the placeholder row gets a fresh id).  Along later
+histories: before 1.17.0 the id is reissued like a crate's (recorded finding); see design/C15.md. -/
+theorem v1c_C15_stale_track_one_step (s : Schema) (db : Db) (h : CInv s db) (t : Id) :
     trackIsValid (step s db (.removeTrack t)).1 t = .ok false :=
   trackIsValid_absent (removeTrack_props s h.seq t).1
 
@@ -147,6 +195,12 @@ def cyclic : Db :=
   { crate := [⟨1, n 'A', [65, 59]⟩, ⟨2, n 'B', [66, 59]⟩], cpl := [(1, 2), (2, 1)], ch := [], ctl := [], track := [],
     trackSeq := 0 }
 
-example : (step .schema_1_6_0 cyclic (.rename 1 (n 'Z'))).2 = .ub .nontermination := by decide +kernel
+/-- registered: the hypothesis `FInv` of `v1c_C15_no_ub` is needed -/
+theorem v1c_C15_cyclic_table_counterexample :
+    (step .schema_1_6_0 cyclic (.rename 1 (n 'Z'))).2 = .ub .nontermination := by decide +kernel
+
+/-- non-vacuity of `v1c_C15_stale_crate_partial`: crate 1 removed, the continuation never reports id 1 -/
+example : reissues .schema_1_9_1 (run .schema_1_9_1 Db.empty ([.createRoot [97], .createRoot [98]] ++ [.removeCrate 1]))
+    [.createSub 2 [99], .rename 3 [100], .removeCrate 3] 1 = false := by decide +kernel
 
 end EngineModel.Properties.C15CratesV1
